@@ -78,11 +78,15 @@ MENU = {
   "complist": ("s.{n} = [ Leaf() for _ in range(2) ]", ["s.{n}[1].y.a[0]"]),
   "complist2": ("s.{n} = [ [ Leaf() for _ in range(2) ] for _ in range(2) ]", ["s.{n}[1][0].i.b.a[1]", "s.{n}[0][1].y.l[0]"]),
   "method": ("s.{n} = CallerPort()", []),
+  # plain Python bookkeeping: a second reference to objects that already have their place (an alias and a list of aliases)
+  "alias": ("s.{n} = [ Leaf() for _ in range(2) ]; s.{n}_ys = [ c.y for c in s.{n} ]; s.{n}_first = s.{n}[0].i", ["s.{n}[1].y.a[0]", "s.{n}[0].i.a[1]"]),
+  # a list that grows after it has been assigned
+  "growlist": ("s.{n} = []; s.{n} += [ Wire( Bits2 ) ]; s.{n} += [ Wire( Bits2 ), Wire( Bits2 ) ]", ["s.{n}[0][1]", "s.{n}[2][0]"]),
   "mid": ("s.{n} = Mid()", ["s.{n}.o[0]"]),
   "midlist": ("s.{n} = [ Mid() for _ in range(2) ]", ["s.{n}[1].o[1]"]),
 }
 MID_MENU = ["bits", "slal", "npc", "siglist", "ifc", "ifclist", "comp", "complist", "complist2", "sls"]
-TOP_MENU = ["bits", "sab", "slal", "npc", "siglist2", "ifc", "ifclist", "comp", "complist2", "method", "mid", "midlist", "sls"]
+TOP_MENU = ["bits", "sab", "slal", "npc", "siglist2", "ifc", "ifclist", "comp", "complist2", "method", "mid", "midlist", "sls", "alias", "growlist"]
 
 
 def comp_src(cls, members, extra_sigs=""):
@@ -209,6 +213,14 @@ def check_objects(top, fail, acc):
         y = y.get_parent_object()
         if isinstance(y, Component): lvl += 1
       if o.get_component_level() != lvl: fail("level-mismatch", lvl, o.get_component_level(), n)
+    if isinstance(o, Signal) and o.is_top_level_signal():
+      # the leaves of a signal: every field / list element that has no fields of its own, each a named object of this design
+      try:
+        leaves = list(o.get_leaf_signals())
+      except Exception as ex:
+        fail("get_leaf_signals-raised", "a list of signals", repr(ex)[:120], n); leaves = []
+      for l in leaves:
+        if not isinstance(l, Signal) or not repr(l).startswith(n): fail("leaf-signal-not-under-its-signal", n, repr(l)[:80]); break
     if isinstance(o, Signal):
       t = o
       while isinstance(t.get_parent_object(), Signal): t = t.get_parent_object()
